@@ -139,3 +139,12 @@ mut('C03', 'rebuild-drops-last-equation', [(EP, "        new_endo = [(x[0], self
 mut('C03', 'cleanup-strips-minus-too', [(EP, "        if s[0] == '+':\n            s = s[1:]", "        if s[0] in '+-':\n            s = s[1:]")], ['stripped_without_one_leading_plus'])
 mut('C03', 'substring-substitution', [(EP, "self.AllEquations[other] = str(replace_token(self.AllEquations[other], var, rhs).replace(' ', ''))", "self.AllEquations[other] = str(self.AllEquations[other].replace(var, rhs).replace(' ', ''))")], ['differential'], deductive_only=False)
 ben('C03', 'cleanup-startswith', [(EP, "        if s[0] == '+':\n            s = s[1:]", "        if s.startswith('+'):\n            s = s[1:]")])
+
+# ---- C20 ---------------------------------------------------------------------------------------------
+IMG = 'deprecated/iterative_machine_generator.py'
+mut('C20', 'template-without-k', [(IMG, "        global k\n        k = float(self.STEP)\n", "")], ['step_counter_defined', 'modules'])
+mut('C20', 'exogenous-missing-from-vector', [(IMG, "        for variable_name, value in self.Exogenous:\n            self.AllVariables.append(variable_name)\n            self.NonLagged.append(variable_name)", "        for variable_name, value in self.Exogenous:\n            self.NonLagged.append(variable_name)")], ['sizes', 'names', 'vector_lists_every_variable'])
+mut('C20', 'lagged-in-table', [(IMG, "        for variable_name, name_of_var in self.Lagged:\n            self.AllVariables.append(variable_name)", "        for variable_name, name_of_var in self.Lagged:\n            self.AllVariables.append(variable_name)\n            self.NonLagged.append(variable_name)")], ['sizes', 'table_columns'])
+mut('C20', 'csv-time-axis-last', [('base_solver.py', "            varlist = ['t', ] + varlist", "            varlist = varlist + ['t', ]")], ['time_axis_first'])
+mut('C20', 'csv-drops-time-axis', [('base_solver.py', "            varlist.remove('t')\n            varlist = ['t', ] + varlist", "            varlist.remove('t')")], ['header_has_every_column_slot', 'no_variable_dropped'])
+ben('C20', 'csv-rename-local', [('base_solver.py', "        out = '\\t'.join(varlist) + '\\n'\n        for i in range(0, len(getattr(self, varlist[0]))):", "        out = '\\t'.join(varlist) + '\\n'\n        for i in range(len(getattr(self, varlist[0]))):")])
